@@ -21,7 +21,7 @@ import ar_fam
 
 PID = 'C10'
 LEAN_TARGETS = ['Nitime.Props.C10']
-RULE = ('session 3: every entry point also on integer (int16/int32/int64), float32, complex64, big-endian, strided and read-only signals / autocorrelation / coefficient / noise arrays (model line and oracle work from the values converted to float64 - exact; single precision judged at 2e-5); programs of AR_est_LD / AR_est_YW calls on ONE supplied array in every order (op seq: outputs of every call, the array afterwards); keyword arguments of autocorr / autocov (axis on 2-d inputs, all_lags, debias, normalize; op acopt); AR_psd / ar_generator with arguments left at their defaults and integer sigma; a supplied rxx together with a signal; amplitudes 1e-150..1e150 judged against the same input scaled by an exact power of two; nearly singular Toeplitz systems (cond to 1e9, tolerance scaled); a perturbation phase (other options, results overwritten) followed by a re-run of a sample of the cases on fresh objects; every routine is also run in call sequences on the same argument objects (>=3 evaluations in mixed order, results scribbled over, arrays refilled in place; C12: several live analyzers read in interleaved order); cases from one PRNG state: signals real / complex / strongly coloured (AR-filtered noise, pole radius to 0.97), '
+RULE = ('round 2: refused / failing calls of every entry point on the same argument objects followed by the ordinary calls against fresh copies (L7), programs of estimator calls with refused calls in between (op seqe), x is rxx, the returned coefficient view consumed by AR_psd / ar_generator (L8); session 3: every entry point also on integer (int16/int32/int64), float32, complex64, big-endian, strided and read-only signals / autocorrelation / coefficient / noise arrays (model line and oracle work from the values converted to float64 - exact; single precision judged at 2e-5); programs of AR_est_LD / AR_est_YW calls on ONE supplied array in every order (op seq: outputs of every call, the array afterwards); keyword arguments of autocorr / autocov (axis on 2-d inputs, all_lags, debias, normalize; op acopt); AR_psd / ar_generator with arguments left at their defaults and integer sigma; a supplied rxx together with a signal; amplitudes 1e-150..1e150 judged against the same input scaled by an exact power of two; nearly singular Toeplitz systems (cond to 1e9, tolerance scaled); a perturbation phase (other options, results overwritten) followed by a re-run of a sample of the cases on fresh objects; every routine is also run in call sequences on the same argument objects (>=3 evaluations in mixed order, results scribbled over, arrays refilled in place; C12: several live analyzers read in interleaved order); cases from one PRNG state: signals real / complex / strongly coloured (AR-filtered noise, pole radius to 0.97), '
         'N in 16..256 (quick) or ..4096 (thorough), orders 1..min(16,N/4); estimators LD and YW with computed and supplied '
         '(biased, unbiased, exact-AR) autocorrelation; AR_psd for sides x parity x real/complex stable coefficient sets; '
         'Gram identity c^H toeplitz(autocorr(x)) c = (1/N) sum |c*x|^2 on real/complex/coloured signals x random, sparse, leading-zero and prediction-error filters (binary64) and on small-integer dyadic signals in exact rational arithmetic (also orders >= N); AR_est_LD vs the exact-rational run of the model with all links of the stability chain evaluated exactly; '
@@ -201,6 +201,19 @@ def run_impl(m):
                 toks += [clist(np.asarray(a).reshape(-1)), clist([complex(s_)])]
             return 'ok ' + ' '.join(toks) + ' ' + clist(data)
         return call(f)
+    if op == 'seqe':
+        data = arr_of(m)
+
+        def f():
+            toks = []
+            for t in m['calls'].split(','):
+                try:
+                    a, s_ = (ar.AR_est_LD if t[0] == 'L' else ar.AR_est_YW)(None, int(t[1:]), rxx=data)
+                    toks += [clist(np.asarray(a).reshape(-1)), clist([complex(s_)])]
+                except (IndexError, ValueError):          # the refusal: order beyond the sequence
+                    toks.append('E')
+            return 'ok ' + ' '.join(toks) + ' ' + clist(data)
+        return call(f)
     if op == 'acopt':
         a, axis = helper_array(m)
         fn = getattr(ut, m['fn'])
@@ -268,6 +281,8 @@ def gen_kwargs(m):
 
 def line_of(m):
     op = m['op']
+    if op == 'seqe':
+        return 'C10 seqe %s %s' % (m['calls'], m['data'])
     if op == 'seq':
         return 'C10 seq %d %s %s' % (m['order'], m['calls'], m['data'])
     if op == 'acopt':
@@ -319,6 +334,27 @@ def cmp_seq(scale_r0):
         for i in range(0, len(a) - 1, 2):
             if not one('ok %s %s' % (a[i], a[i + 1]), 'ok %s %s' % (b[i], b[i + 1])):
                 return False
+        return parse_clist(a[-1]) == parse_clist(b[-1])
+    return f
+
+
+def cmp_seqe(scale_r0):
+    """'ok <a s | E> ... r_after': refusals must coincide, accepted calls like cmp_est, the array afterwards exactly"""
+    def f(impl, model):
+        a, b = impl.split(), model.split()
+        if a[:1] != ['ok'] or b[:1] != ['ok'] or len(a) != len(b):
+            return impl == model
+        one = cmp_est(scale_r0)
+        i = 1
+        while i < len(a) - 1:
+            if 'E' in (a[i], b[i]):
+                if a[i] != b[i]:
+                    return False
+                i += 1
+                continue
+            if not one('ok %s %s' % (a[i], a[i + 1]), 'ok %s %s' % (b[i], b[i + 1])):
+                return False
+            i += 2
         return parse_clist(a[-1]) == parse_clist(b[-1])
     return f
 
@@ -423,6 +459,34 @@ def judge_value(m, impl, clause):
     def fail(sym, what):
         return Failure('%s/%s' % (clause, sym), '%s: %s [op %s order=%s]' % (clause, what, op, m.get('order')),
                        {'meta': m, 'clause': clause})
+    if op == 'seqe':
+        # calls with their own orders on ONE array, some refused (order beyond the sequence): a refusal exactly where the
+        # sequence is too short, every accepted call judged like a single call, the array afterwards what it was
+        if not impl.startswith('ok '):
+            return fail('raises', 'program with refused calls: ' + impl)
+        toks = impl.split()[1:]
+        n = len(vals_of(m))
+        i = 0
+        for k, t in enumerate(m['calls'].split(',')):
+            o = int(t[1:])
+            refused = i < len(toks) and toks[i] == 'E'
+            if refused != (n < o + 1):
+                return fail('refusal', 'call #%d (%s) on a sequence of %d lags was %s' % (k + 1, t, n, 'refused' if refused else 'accepted'))
+            if refused:
+                i += 1
+                continue
+            sub = dict(m, op='ld' if t[0] == 'L' else 'yw', order=o)
+            f = judge_value(sub, 'ok %s %s' % (toks[i], toks[i + 1]), clause)
+            if f:
+                f.key = '%s/after-refusal/%s' % (clause, f.key.rsplit('/', 1)[-1])
+                f.what = 'call #%d (%s) of the program %s on one array: %s' % (k + 1, t, m['calls'], f.what)
+                f.replay = {'meta': m, 'clause': clause}
+                return f
+            i += 2
+        after = np.array(parse_clist(toks[-1]))
+        if after.shape != vals_of(m).shape or not np.array_equal(after, np.asarray(vals_of(m), dtype=complex)):
+            return fail('argument-changed-by-refused-call', 'the autocorrelation array handed in was changed by the program ' + m['calls'])
+        return None
     g = parse_groups(impl)
     if g is None:
         return fail('raises', 'valid input rejected: ' + impl)
@@ -976,6 +1040,21 @@ def session3_cases(nrng, big, out, est_case):
                 continue
             m = {'op': 'seq', 'order': order, 'calls': calls, 'data': clist(r), 'cplx': cplx, 'psd_valid': True}
             out.append(mk_case(m, 'est/program/' + calls, cmp_seq(abs(r[0]))))
+        # --- round 2 (L7): programs with REFUSED calls (order beyond the sequence: the code raises part-way) between accepted ones
+        for pat in ('L{p},L{big},L{p}', 'Y{big},L{p},Y{p}', 'L{big},Y{big},L{q},Y{p}', 'L{p},Y{n},L{n},Y{q}'):
+            cplx = bool(nrng.rand() < 0.5)
+            order = int(nrng.randint(2, 6))
+            x = gen_signal(nrng, 64, 'coloured-complex' if cplx else 'coloured-real')
+            r = direct_autocorr(x, order + 1)
+            r[0] = r[0].real
+            if not cplx:
+                r = r.real.astype(float)
+            r = r * float(nrng.choice([1.0, 1e-12, 1e6]))
+            if not np.linalg.cond(toeplitz_h(r, order)) < 1e3:
+                continue
+            calls = pat.format(p=order, q=order - 1, n=order + 1, big=order + int(nrng.randint(2, 9)))
+            m = {'op': 'seqe', 'order': order, 'calls': calls, 'data': clist(r), 'cplx': cplx, 'psd_valid': True}
+            out.append(mk_case(m, 'est/program-with-refusals', cmp_seqe(abs(r[0]))))
         # --- L3: keyword arguments of the covariance helpers (axis, all_lags, debias, normalize), 1-d and 2-d inputs
         t = 0
         for fn in ('autocorr', 'autocov'):
